@@ -138,7 +138,7 @@ struct Corpus {
       struct Act { const char *s; bool arr; const char *cls; };
       static const std::vector<Act> acts = {{"1", false, "k"}, {"70000", false, "K"}, {"x", false, "l"}, {"g", false, "g"}, {"p", false, "p"}, {"(x - (i + 1))", false, "tmp"}, {"id(3)", false, "call"},
                                             {"id(id(4))", false, "call2"}, {"(id(2) + (x - i))", false, "call+tmp"}, {"a[i]", false, "ai"}, {"a", true, "arr"}, {"fa", true, "farr"}, {"\"ab\"", true, "str"},
-                                            {"(x - (i - (g - p)))", false, "tmp2"}, {"f2(x, id(1))", false, "call3"}, {"a[0]", false, "a0"}, {"a[1]", false, "a1"}, {"a[2]", false, "a2"}, {"a[3]", false, "a3"}, {"fa[2]", false, "fa2"}};
+                                            {"(x - (i - (g - p)))", false, "tmp2"}, {"f2(x, id(1))", false, "call3"}, {"a[0]", false, "a0"}, {"a[1]", false, "a1"}, {"a[2]", false, "a2"}, {"a[3]", false, "a3"}, {"fa[2]", false, "fa2"}, {"a[id(2)]", false, "acall"}, {"fa[id(1) + 1]", false, "facall"}};
       auto nActs = std::make_shared<std::vector<Act>>(acts);
       // callee for a kind vector: returns weighted sum making every formal observable
       auto callee = [](const std::string &name, const std::vector<bool> &arr, bool func) {
@@ -168,7 +168,7 @@ struct Corpus {
           {"func-subscript", true, [](const std::string &c) { return "0(a[" + c + " - " + c + "])"; }},
       };
       // quick uses a 12-element subset: the first 9 kinds plus a[i], a[1], a[2]
-      auto quickActs = std::make_shared<std::vector<Act>>(std::vector<Act>(acts.begin(), acts.begin() + 10)); quickActs->push_back(acts[16]); quickActs->push_back(acts[17]);
+      auto quickActs = std::make_shared<std::vector<Act>>(std::vector<Act>(acts.begin(), acts.begin() + 10)); quickActs->push_back(acts[16]); quickActs->push_back(acts[17]); quickActs->push_back(acts[20]);
       if (!thorough) nActs = quickActs;
       int maxAr = 3; size_t na = nActs->size();
       for (int ar = 0; ar <= maxAr; ar++) {
